@@ -22,6 +22,8 @@ type Run struct {
 	Seed     uint64
 	No       int
 	T        *Tape
+	// SchedMode is the cooperative scheduler's discipline for this run.
+	SchedMode string
 
 	Trace   []string
 	Faults  map[string]int
